@@ -5,6 +5,7 @@ Part 2 (uniqueness among outstanding operations over all interleavings) is `C05_
 over the connection model.
 -/
 import Ldap3V.Lemmas.IdAlloc
+import Ldap3V.Lemmas.ConnSteps
 namespace Ldap3V
 
 /-- The allocator returns the FIRST free ID in the cyclic order last+1, …, N, 1, …, last; it is
@@ -40,6 +41,26 @@ theorem C05_wrap (N : Nat) (inUse : List Nat) (hN : 1 ≤ N) :
     nextId N N inUse = outOf (firstFree inUse (List.range' 1 N)) := by
   rw [nextId_eq N N inUse hN (Nat.le_refl _)]
   simp [candidates]
+
+/-- In the connection model an allocation is ONE atomic step (the real code holds the table's mutex
+across the whole loop), whatever else is going on: the ID handed out is not reserved by anybody,
+becomes reserved in the same step, and becomes the new counter position.  With `C05_alloc_spec` it
+is the first free ID in cyclic order.  (Uniqueness among all operations still registered with the
+driver, over whole histories, additionally needs that a reserved ID is only released together
+with its registration — C13's step theorems — and that no ID is handed out again while a stale
+scrub for it is still queued, which takes 2^31-1 further allocations: finding F13; the whole-history
+statement is checked by lane `ids` (server-side oracle) and by the model explorer, and is not
+claimed as a theorem yet.) -/
+theorem C05_alloc_step (s : Conn.St) (kind : Conn.Kind) (id : Nat) (h : nextId s.N s.last s.inUse = .ok id) :
+    ∃ s', Conn.step s (.alloc kind) = some (s', .id id) ∧ s'.last = id ∧ s'.inUse = id :: s.inUse ∧
+      (∃ o : Conn.Op, s'.ops = s.ops ++ [o] ∧ o.id = id ∧ o.kind = kind ∧ o.phase = .allocated) := by
+  simp only [Conn.step, h]
+  exact ⟨_, rfl, rfl, rfl, _, rfl, rfl, rfl, rfl⟩
+
+/-- an ID that is reserved is never handed out -/
+theorem C05_never_reserved (N last : Nat) (inUse : List Nat) (id : Nat) (hl : 1 ≤ last) (hN : last ≤ N)
+    (h : nextId N last inUse = .ok id) : id ∉ inUse :=
+  ((C05_alloc_spec N last inUse hl hN).1 id h).2.2.1
 
 /-! ### non-vacuity (tests) -/
 example : nextId 7 7 [7, 1, 2] = .ok 3 := by decide
